@@ -20,6 +20,9 @@ CHECKS = {
     'C03': ('symbolic execution of the real rate() over a symbolic rank/score vector (values z3 Real, kinds z3 Int tags), z3-decided path partition; per path comparison with the real code on canonical dense ranks',
             'Every path of rate() over ALL finite int/float/bool rank or score vectors of length 2-4 (5 single-kind in thorough): the result equals the result for the canonical dense int ranks of the path\'s weak order; scores == negated ranks; omitted == [0..n-1].',
             'Trusted: z3 (LRA/LIA), exactness of CPython comparisons between finite int/float/bool. NaN/inf ranks outside. Game values concrete.', '6/C03'),
+    'C12': ('symbolic execution of the real predict_* and of the documented closed forms in one path (sx engine) + z3 equality per value; sat models replayed against mpmath',
+            'For every model and the listed shapes (up to 8 teams / 8 players in thorough) and all mu, sigma >= 0, beta > 0: every value returned by predict_win, predict_draw and predict_rank is the same real-valued term as the documented closed form.',
+            TRUST + ' predict_rank: the rank assignment is stubbed here (decided in C11).', '6/C12'),
     'C14': ('symbolic execution of the real rate()/predict_* with write/inspection monitors + two-run z3 equality (history vs fresh model, original vs rebuilt ratings)',
             'On every path of every call variant (per-call tau symbolic, limit_sigma in {None,True,False}) no model attribute is written, ids/names/hash are never consulted, and a call after an arbitrary earlier call returns the same terms as on a fresh model. Thread interleavings and hash seeds are not explored; only the non-interference premises are checked.',
             TRUST + ' Interleavings/PYTHONHASHSEED themselves: outside (paper argument from the checked premises).', '6/C14'),
